@@ -58,6 +58,10 @@ def tasks(tier):
     ts.append(("item forces summed by the curve", "run_included", dict(modname="c01_items", fname="run_multiplier", kwargs={}, oid="C09.O6", select_oid="C01.O8",
                                                                       why="the force recorded by CharacteristicCurve(items=...) is the sum of item.results.force: an item with a multiplier (external loads carry -1) has to report the multiplied force")))
     # a displacement patch test prescribes every boundary unknown; on a mesh without interior points no unknown is free
+    # "independent of the mesh ... and interior distortion": the documented way to distort a mesh (mesh.update(points, callback=region.reload))
+    # may come after the body was created
+    ts.append(("body on a re-evaluated region", "run_included", dict(modname="c01", fname="run_reassembly", kwargs=dict(cfg="NeoHooke(mu,bulk)"), oid="C09.O7", select_oid="C01.O1r",
+                                                                    why="the patch test holds on the distorted mesh only if the body integrates with the region's current volumes and gradients, not with those at its creation")))
     ts.append(("partitioned solve, degenerate partitions", "run_included", dict(modname="c07", fname="run_partition_edges", kwargs={}, oid="C09.O4",
                                                                              why="the patch test on a mesh without interior points has no free unknown: the solve must still set the prescribed increments")))
     return ts
